@@ -157,7 +157,7 @@ def run(pid, tier, seed, fact_files, repo, t0, explain=None):
             "functions_in_crate": len(prog.bodies),
             "functions_analysed": sorted(rep.stats["functions"]),
             "call_sites_resolved": len(prog.sites()),
-            "paths_enumerated": rep.stats["paths"],
+            "paths_enumerated": rep.stats.get("paths", 0),
             "event_graph_nodes": len(ctx._rg.nodes) if ctx._rg is not None else 0,
             "exhaustive": bool(spec.get("exhaustive", False)),
             "rules": rules,
@@ -167,6 +167,7 @@ def run(pid, tier, seed, fact_files, repo, t0, explain=None):
             "trusted_base": TRUSTED,
             "not_decided": spec.get("not_decided", []),
             "known_findings_matched": n_known,
+            "selftest": rep.stats.get("selftest"),
         },
         "assumptions": TRUSTED + spec.get("assumptions", []),
         "wall_s": round(time.time() - t0, 2),
